@@ -2822,15 +2822,20 @@ echs_evical_pull(ical_parser_t p[static 1U])
 	 * into evical vevents and evrruls */
 	if (UNLIKELY(*p == NULL)) {
 		/* how brave */
+		return i;
+	}
+	/* the end of a calendar (or something we cannot make sense of)
+	 * resets the globals, what follows in this buffer is treated just
+	 * like what follows in later buffers: as a new calendar */
+	while (UNLIKELY((ve = _ical_pull(*p)) == ICAL_EOP)) {
+		struct ical_parser_s *_p = *p;
+
+		free_ical_vevent(&_p->globve);
+		memset(&_p->globve, 0, sizeof(_p->globve));
+	}
+	if (ve == NULL) {
+		/* we need more data */
 		;
-	} else if ((ve = _ical_pull(*p)) == NULL) {
-		/* we need more data, or we've reached the state finished */
-		;
-	} else if (UNLIKELY(ve == ICAL_EOP)) {
-		/* oh, do the big cleaning up */
-		_ical_fini(*p);
-		free(*p);
-		*p = NULL;
 	} else {
 		struct ical_parser_s *_p = *p;
 
